@@ -1638,7 +1638,7 @@ def methodise(prog):
                     bound_pos = st.value.args[1:]
                     bound_kw = {k.arg: k.value for k in st.value.keywords if k.arg}
                     params = f.args.args
-                    if f.args.vararg or f.args.kwarg or len(bound_pos) > len(params) - 1 or not all(isinstance(v, ast.Constant) for v in list(bound_pos) + list(bound_kw.values())):
+                    if len(bound_pos) > len(params) - 1 or not all(isinstance(v, ast.Constant) for v in list(bound_pos) + list(bound_kw.values())):
                         continue
                     bind = {params[1 + i].arg: v for i, v in enumerate(bound_pos)}
                     bind.update(bound_kw)
